@@ -371,7 +371,8 @@ pub fn normalise_addr(s: &str) -> String {
             while j < b.len() && (b[j].is_ascii_digit() || (b'a'..=b'f').contains(&b[j])) {
                 j += 1;
             }
-            if j > i + 2 {
+            // pointers print as 0x followed by many hex digits; short runs such as "0x0" are data
+            if j >= i + 2 + 6 {
                 out.push_str("[MEMADDR]");
                 i = j;
                 continue;
